@@ -14,13 +14,22 @@ import (
 	"github.com/cosi-project/runtime/pkg/state"
 	"github.com/cosi-project/runtime/pkg/state/impl/inmem"
 	"github.com/cosi-project/runtime/pkg/state/impl/namespaced"
+	"github.com/cosi-project/runtime/pkg/state/owned"
 )
 
 // engine helpers: the generic helpers of pkg/state/wrap.go (UpdateWithConflicts,
 // Modify, Add/RemoveFinalizer, Teardown, TeardownAndDestroy, WatchFor,
 // ContextWithTeardown) run as actors behind the gate proxy; the schedule interleaves
 // their individual store operations and watch deliveries with each other and with
-// environment writes. Compared action by action with Cosi.Model.Wrap (C03, C04).
+// environment writes. Compared action by action with the machine generated from the current
+// wrap.go / condition.go / owned/state.go (Cosi.Model.WrapRules, model mode) and with the
+// hand-written machine of Cosi.Model.Wrap (spec mode) (C03, C04).
+//
+// Besides the random schedules the engine ships a systematic PREEMPTION corpus (helpersCorpus): every primary
+// helper call x every initial state of the resource x every preemption point (after 1..4 of its store
+// operations) x every disturbance from a closed family (finalizer added / removed, torn down, "the same change
+// plus teardown", rival create, destroy, a whole other helper call), plus two-point preemptions.
+// `via=owned` runs the call through owned.State (pkg/state/owned), `odestroy` is owned.State.Destroy.
 //
 // Header remote=1: every actor holds the state the way a REMOTE caller does — the real
 // client.Adapter over real grpc-go (bufconn) to the real server.State wrapping that actor's gated
@@ -75,7 +84,7 @@ func (*helpersEng) Cases(thorough bool) int {
 }
 
 func (*helpersEng) Rule() string {
-	return "2-5 helper actors (uwc/modify/addfin/removefin/teardown/tad/watchfor/ctx with random mutators, owners, expected phases) on 1-2 resources, scheduled one store op / watch delivery at a time, interleaved with environment create/modify/destroy; a third of the cases with every actor behind the real gRPC client adapter + server (remote=1), half of the cases with a history of 2..6 events and bursts of writes to a third resource, so that stalled helper watches overrun the history and fail; non-trivial = some helper retried after a version conflict or an environment write landed between a helper's read and its write, and at least 2 helpers finished; distinct by hash of the op lines"
+	return "corpus = every primary helper call (uwc/modify/teardown/tad/addfin/removefin/watchfor/ctx, direct and through owned.State with every owner / expected-phase option) x 5 initial states (absent, running, running+finalizer, tearing-down+finalizer, tearing-down) x preemption after 1..4 of its store operations x 10 disturbances (finalizer added/removed, teardown, same change + teardown, non-idempotent change, rival create, destroy, create+destroy, a whole AddFinalizer / Teardown call), plus two-point preemptions (Modify in the quick tier, every primary in the thorough tier); generated = 2-5 helper actors (direct or through owned.State, random mutators incl. a non-idempotent one, owners, expected phases) on 1-2 resources, scheduled one store op / watch delivery at a time, interleaved with environment create/modify/destroy; a third of the generated cases with every actor behind the real gRPC client adapter + server (remote=1), half of them with a history of 2..6 events and bursts of writes to a third resource, so that stalled helper watches overrun the history and fail; non-trivial = (generated) some helper retried after a version conflict or an environment write landed between a helper's read and its write, and at least 2 helpers finished, (corpus) the disturbance landed while the primary call was in progress and the call finished; distinct by hash of the op lines"
 }
 
 func (*helpersEng) NonTrivial(c Case, out []string) bool {
@@ -101,15 +110,19 @@ func (*helpersEng) NonTrivial(c Case, out []string) bool {
 
 				delete(lastGet, a["a"])
 			}
-		} else if (op == "envmod" || op == "destroy" || op == "create") && strings.HasPrefix(o, "ok") && len(lastGet) > 0 {
+		} else if (op == "envmod" || op == "destroy" || op == "odestroy" || op == "create") && strings.HasPrefix(o, "ok") && len(lastGet) > 0 {
 			retry = true
 		}
+	}
+
+	if strings.Contains(c.Header, "corpus=1") {
+		return done >= 1 && retry
 	}
 
 	return done >= 2 && retry
 }
 
-var helperMuts = []string{"setLabel:k1:v1", "setLabel:k1:v2", "setLabel:k2:x", "addFins:A", "addFins:B", "addFins:A+B", "removeFins:A", "removeFins:B", "removeFins:A+B", "setSpec:s1", "setSpec:s2", "noop", "fail", "setPhaseTD"}
+var helperMuts = []string{"setLabel:k1:v1", "setLabel:k1:v2", "setLabel:k2:x", "addFins:A", "addFins:B", "addFins:A+B", "removeFins:A", "removeFins:B", "removeFins:A+B", "setSpec:s1", "setSpec:s2", "appendSpec:x", "noop", "fail", "setPhaseTD"}
 
 func (e *helpersEng) Gen(r *Rand, thorough bool, idx int) Case {
 	initcap, maxcap, gap, remote := 3+r.Intn(20), 40, 0, 0
@@ -174,6 +187,42 @@ func (e *helpersEng) Gen(r *Rand, thorough bool, idx int) Case {
 
 		exp := Pick(r, []string{"running", "running", "any", "tearingDown"})
 		op := fmt.Sprintf("spawn t=%d a=%d ns=n1 typ=T1 id=%s", tick(), a, id)
+
+		if r.Chance(1, 5) {
+			// the same helpers through owned.State (pkg/state/owned): owner and expected phase are forwarded
+			ctrl := owner
+			if ctrl == "" || r.Chance(1, 5) {
+				ctrl = Pick(r, []string{"A", "B"})
+			}
+
+			op += " via=owned ctrl=" + ctrl
+
+			switch x := r.Intn(10); {
+			case x < 5:
+				op += fmt.Sprintf(" fn=modify ver=undefined owner= phase=running fins= labels= c=0 u=0 spec=s0 mut=%s", Pick(r, helperMuts[:len(helperMuts)-1]))
+				if r.Chance(1, 4) {
+					op += " noowner=1"
+				}
+
+				if r.Chance(2, 3) {
+					op += " oexp=" + Pick(r, []string{"any", "running", "tearingDown", "tearingDown"})
+				}
+			case x < 7:
+				op += " fn=teardown"
+				if r.Chance(1, 2) {
+					op += " oas=" + Pick(r, owners)
+				}
+			case x < 9:
+				op += " fn=addfin fins=" + Pick(r, []string{"A", "B", "A,B"})
+			default:
+				op += " fn=removefin fins=" + Pick(r, []string{"A", "B", "A,B"})
+			}
+
+			c.Ops = append(c.Ops, op)
+			actors = append(actors, a)
+
+			return
+		}
 
 		switch x := r.Intn(100); {
 		case x < 25:
@@ -243,6 +292,17 @@ func (e *helpersEng) Gen(r *Rand, thorough bool, idx int) Case {
 			c.Ops = append(c.Ops, fmt.Sprintf("envmod t=%d ns=n1 typ=T1 id=%s mut=%s", tick(), Pick(r, ids), Pick(r, helperMuts)))
 		case x < 80:
 			id := Pick(r, ids)
+			if r.Chance(1, 4) {
+				op := fmt.Sprintf("odestroy t=%d ns=n1 typ=T1 id=%s ctrl=%s", tick(), id, Pick(r, []string{"A", "B", resOwner[id]}))
+				if r.Chance(1, 2) {
+					op += " oas=" + resOwner[id]
+				}
+
+				c.Ops = append(c.Ops, op)
+
+				break
+			}
+
 			c.Ops = append(c.Ops, fmt.Sprintf("destroy t=%d ns=n1 typ=T1 id=%s as=%s", tick(), id, resOwner[id]))
 		case x < 85:
 			mkCreate(Pick(r, ids))
@@ -287,6 +347,8 @@ func ApplyMut(m string) func(resource.Resource) error {
 			}
 		case "setSpec":
 			r.(*TRes).spec = TSpec{S: parts[1]}
+		case "appendSpec": // not idempotent: a mutation applied twice shows
+			r.(*TRes).spec = TSpec{S: specOf(r) + parts[1]}
 		case "setPhaseTD":
 			r.Metadata().SetPhase(resource.PhaseTearingDown)
 		case "fail":
@@ -329,6 +391,10 @@ func evTypeOf(s string) state.EventType {
 func RunHelper(ctx context.Context, st state.State, a Args) string {
 	ptr := resource.NewMetadata(a["ns"], a["typ"], a["id"], resource.VersionUndefined)
 	errRet := func(err error) string { return "err class=" + ErrClass(err) }
+
+	if a["via"] == "owned" {
+		return runOwnedHelper(ctx, owned.New(st, a["ctrl"]), ptr, a)
+	}
 
 	switch a["fn"] {
 	case "uwc":
@@ -432,6 +498,238 @@ func RunHelper(ctx context.Context, st state.State, a Args) string {
 	return "bad-fn"
 }
 
+// runOwnedHelper makes the call through owned.State (pkg/state/owned/state.go): the owner of the owned.State, the
+// no-owner flag, the explicit owner and the expected phase are the caller's options.
+func runOwnedHelper(ctx context.Context, ost *owned.State, ptr resource.Pointer, a Args) string {
+	errRet := func(err error) string { return "err class=" + ErrClass(err) }
+
+	switch a["fn"] {
+	case "modify":
+		var opts []owned.ModifyOption
+
+		if a["noowner"] == "1" {
+			opts = append(opts, owned.WithModifyNoOwner())
+		}
+
+		if v, ok := a["oexp"]; ok {
+			if v == "any" {
+				opts = append(opts, owned.WithExpectedPhaseAny())
+			} else {
+				opts = append(opts, owned.WithExpectedPhase(phaseOf(v)))
+			}
+		}
+
+		r, err := ost.ModifyWithResult(ctx, BuildRes(a), ApplyMut(a["mut"]), opts...)
+		if err != nil {
+			return errRet(err)
+		}
+
+		return "res " + ResStr(r)
+	case "teardown":
+		var opts []owned.DeleteOption
+
+		if v, ok := a["oas"]; ok {
+			opts = append(opts, owned.WithOwner(v))
+		}
+
+		ready, err := ost.Teardown(ctx, ptr, opts...)
+		if err != nil {
+			return errRet(err)
+		}
+
+		return fmt.Sprintf("ready=%v", ready)
+	case "addfin":
+		if err := ost.AddFinalizer(ctx, ptr, a.List("fins")...); err != nil {
+			return errRet(err)
+		}
+
+		return "ok"
+	case "removefin":
+		if err := ost.RemoveFinalizer(ctx, ptr, a.List("fins")...); err != nil {
+			return errRet(err)
+		}
+
+		return "ok"
+	}
+
+	return "bad-fn"
+}
+
+// ---------------------------------------------------------------------------------------------
+// the preemption corpus
+
+const helpersEmpty = "ver=undefined owner= phase=running fins= labels= c=0 u=0 spec=s0"
+
+// helpersPrimaries: the call under test (%o = the owner the resource was created with)
+var helpersPrimaries = []string{
+	"fn=uwc mut=setSpec:s1 as=%o exp=running",
+	"fn=uwc mut=appendSpec:x as=%o exp=running",
+	"fn=uwc mut=addFins:A as=%o exp=any",
+	"fn=uwc mut=setSpec:s1 as=%o exp=tearingDown",
+	"fn=modify " + helpersEmpty + " mut=appendSpec:x as=%o exp=running",
+	"fn=modify " + helpersEmpty + " mut=setSpec:s1 as=%o exp=any",
+	"via=owned ctrl=%c fn=modify " + helpersEmpty + " mut=setSpec:s1 oexp=tearingDown",
+	"via=owned ctrl=%c fn=modify " + helpersEmpty + " mut=appendSpec:x",
+	"via=owned ctrl=%c fn=modify " + helpersEmpty + " mut=setSpec:s1 oexp=any noowner=1",
+	"via=owned ctrl=%c fn=modify " + helpersEmpty + " mut=setSpec:s1 oexp=running",
+	"fn=teardown as=%o",
+	"via=owned ctrl=%c fn=teardown",
+	"via=owned ctrl=B fn=teardown oas=%o",
+	"fn=tad as=%o",
+	"fn=addfin fins=A",
+	"fn=removefin fins=A",
+	"via=owned ctrl=%c fn=addfin fins=B",
+	"via=owned ctrl=%c fn=removefin fins=A",
+	"fn=watchfor finsempty=1 phases=tearingDown",
+	"fn=watchfor finsempty=1",
+	"fn=watchfor evtypes=updated,destroyed phases=tearingDown",
+	"fn=ctx",
+}
+
+// helpersInitial: how the resource looks when the call starts (create / teardown lines, %o = owner)
+var helpersInitial = [][]string{
+	nil, // absent
+	{"create fins="},
+	{"create fins=A"},
+	{"create fins=A", "envmod mut=setPhaseTD"},
+	{"create fins=", "envmod mut=setPhaseTD"},
+}
+
+// helpersBursts: what other parties do at a preemption point
+var helpersBursts = [][]string{
+	{"envmod mut=addFins:A"},
+	{"envmod mut=removeFins:A"},
+	{"envmod mut=setPhaseTD"},
+	{"envmod mut=setSpec:s1", "envmod mut=setPhaseTD"}, // the very change the call makes, then teardown
+	{"envmod mut=appendSpec:x"},
+	{"create fins="},
+	{"destroy"},
+	{"create fins=", "destroy"},
+	{"helper fn=addfin fins=B"}, // a whole other helper call, run to completion
+	{"helper fn=teardown as=%o"},
+}
+
+// helpersCase builds one preemption case: initial state, the primary call, `ks[i]` of its steps followed by burst i,
+// then the primary to completion, the finalizers removed and everything stepped until done.
+func helpersCase(idx int, owner, primary string, initial []string, ks []int, bursts [][]string) Case {
+	c := Case{Header: fmt.Sprintf("# engine=helpers flavour=namespaced nsaware=1 initcap=20 maxcap=40 gap=0 corpus=1 case=c%d", idx)}
+	t := 0
+	tick := func() int { t++; return t }
+	ctrl := owner
+
+	if ctrl == "" {
+		ctrl = "A"
+	}
+
+	subst := func(s string) string {
+		return strings.ReplaceAll(strings.ReplaceAll(s, "%o", owner), "%c", ctrl)
+	}
+
+	nextActor := 2
+
+	env := func(line string) {
+		line = subst(line)
+
+		switch {
+		case strings.HasPrefix(line, "create "):
+			c.Ops = append(c.Ops, fmt.Sprintf("create t=%d ns=n1 typ=T1 id=a ver=undefined owner= phase=running %s labels= c=0 u=0 spec=s0 as=%s", tick(), strings.TrimPrefix(line, "create "), owner))
+		case strings.HasPrefix(line, "envmod "):
+			c.Ops = append(c.Ops, fmt.Sprintf("envmod t=%d ns=n1 typ=T1 id=a %s", tick(), strings.TrimPrefix(line, "envmod ")))
+		case line == "destroy":
+			c.Ops = append(c.Ops, fmt.Sprintf("destroy t=%d ns=n1 typ=T1 id=a as=%s", tick(), owner))
+		case strings.HasPrefix(line, "helper "):
+			a := nextActor
+			nextActor++
+
+			c.Ops = append(c.Ops, fmt.Sprintf("spawn t=%d a=%d ns=n1 typ=T1 id=a %s", tick(), a, strings.TrimPrefix(line, "helper ")))
+			for i := 0; i < 4; i++ {
+				c.Ops = append(c.Ops, fmt.Sprintf("step t=%d a=%d", tick(), a))
+			}
+		}
+	}
+
+	for _, l := range initial {
+		env(l)
+	}
+
+	c.Ops = append(c.Ops, fmt.Sprintf("spawn t=%d a=1 ns=n1 typ=T1 id=a %s", tick(), subst(primary)))
+
+	done := 0
+
+	for i, k := range ks {
+		for ; done < k; done++ {
+			c.Ops = append(c.Ops, fmt.Sprintf("step t=%d a=1", tick()))
+		}
+
+		for _, l := range bursts[i] {
+			env(l)
+		}
+	}
+
+	for i := 0; i < 6; i++ {
+		c.Ops = append(c.Ops, fmt.Sprintf("step t=%d a=1", tick()))
+	}
+
+	// let a blocked TeardownAndDestroy / WatchFor / context finish: drop the finalizers, tear down, step again
+	c.Ops = append(c.Ops, fmt.Sprintf("envmod t=%d ns=n1 typ=T1 id=a mut=removeFins:A+B", tick()))
+	c.Ops = append(c.Ops, fmt.Sprintf("envmod t=%d ns=n1 typ=T1 id=a mut=setPhaseTD", tick()))
+
+	for i := 0; i < 4; i++ {
+		c.Ops = append(c.Ops, fmt.Sprintf("step t=%d a=1", tick()))
+	}
+
+	c.Ops = append(c.Ops, fmt.Sprintf("list t=%d ns=n1 typ=T1", tick()))
+
+	return c
+}
+
+// Corpus is the systematic preemption corpus (runs before the generated cases, independent of the seed).
+func (*helpersEng) Corpus(thorough bool) []Case {
+	var cs []Case
+
+	ownerOf := func(primary string) string {
+		if strings.Contains(primary, "via=owned") {
+			return "A"
+		}
+
+		return ""
+	}
+
+	// one preemption point
+	for _, p := range helpersPrimaries {
+		for _, ini := range helpersInitial {
+			for k := 1; k <= 4; k++ {
+				for _, b := range helpersBursts {
+					cs = append(cs, helpersCase(len(cs), ownerOf(p), p, ini, []int{k}, [][]string{b}))
+				}
+			}
+		}
+	}
+
+	// two preemption points: Modify in the quick tier (the create race), every primary in the thorough tier
+	for _, p := range helpersPrimaries {
+		if !thorough && !strings.Contains(p, "fn=modify") {
+			continue
+		}
+
+		for _, ini := range helpersInitial[:3] {
+			for _, ks := range [][]int{{1, 2}, {1, 3}, {2, 3}} {
+				for _, b1 := range helpersBursts[:8] {
+					for _, b2 := range helpersBursts[:8] {
+						if !thorough && len(b1)+len(b2) > 2 {
+							continue
+						}
+
+						cs = append(cs, helpersCase(len(cs), ownerOf(p), p, ini, ks, [][]string{b1, b2}))
+					}
+				}
+			}
+		}
+	}
+
+	return cs
+}
+
 func (e *helpersEng) Exec(t *testing.T, c Case) []string {
 	_, h := ParseLine(strings.TrimPrefix(c.Header, "#"))
 	out := make([]string, 0, len(c.Ops))
@@ -516,6 +814,18 @@ func (e *helpersEng) Exec(t *testing.T, c Case) []string {
 					return g.Step()
 				case "envmod":
 					return envMod(ctx, inner, a)
+				case "odestroy":
+					var opts []owned.DeleteOption
+
+					if v, ok := a["oas"]; ok {
+						opts = append(opts, owned.WithOwner(v))
+					}
+
+					if err := owned.New(state.WrapCore(inner), a["ctrl"]).Destroy(ctx, resource.NewMetadata(a["ns"], a["typ"], a["id"], resource.VersionUndefined), opts...); err != nil {
+						return ErrLine(err, a["ns"], a["typ"])
+					}
+
+					return "ok"
 				default:
 					return ExecStoreOp(ctx, inner, line)
 				}
